@@ -160,10 +160,10 @@ def parts(tier):
         return [CH("one_worker", "vflib.props.c15:scen_schedule", {"threads": 1, "pipeline_sets": [[0], [1], [2]], "preemptions": 0}, shards=1, timeout=120, path_timeout=60),
                 CH("two_workers", "vflib.props.c15:scen_schedule", {"threads": 2, "pipeline_sets": [[0, 3]], "preemptions": 2}, shards=2, timeout=170, path_timeout=90)]
     return [CH("one_worker", "vflib.props.c15:scen_schedule", {"threads": 1, "pipeline_sets": [[0], [1], [2]], "preemptions": 0}, shards=1, timeout=120, path_timeout=60),
-            CH("two_workers", "vflib.props.c15:scen_schedule", {"threads": 2, "pipeline_sets": [[0, 1], [1, 2], [0, 3], [3, 2]], "preemptions": 2}, shards=2, timeout=3000, path_timeout=90),
-            CH("three_workers", "vflib.props.c15:scen_schedule", {"threads": 3, "pipeline_sets": [[0, 1, 2]], "preemptions": 2}, shards=3, timeout=3000, path_timeout=90),
+            CH("two_workers", "vflib.props.c15:scen_schedule", {"threads": 2, "pipeline_sets": [[0, 1], [1, 2], [0, 3], [3, 2]], "preemptions": 2}, shards=2, timeout=900, path_timeout=90),
+            CH("three_workers", "vflib.props.c15:scen_schedule", {"threads": 3, "pipeline_sets": [[0, 1, 2]], "preemptions": 2}, shards=3, timeout=900, path_timeout=90),
             CH("two_workers_context_only_all_interleavings", "vflib.props.c15:scen_schedule",
-               {"threads": 2, "pipeline_sets": [[0, 1]], "preemptions": 40, "extra_points": False}, shards=2, timeout=3000, path_timeout=90)]
+               {"threads": 2, "pipeline_sets": [[0, 1]], "preemptions": 40, "extra_points": False}, shards=2, timeout=900, path_timeout=90)]
 
 
 META = {
